@@ -52,6 +52,7 @@ type Thread struct {
 	wake    chan struct{}
 	done    bool
 	blocked interface{}
+	soft    bool // blocked on something that a foreign goroutine may complete: resumed when nobody else can run
 	noPoint int
 	Steps   int
 }
@@ -337,6 +338,16 @@ func (r *Run) pickOrd(from *Thread, fromEnabled, fromLast bool, kind Kind, label
 	}
 	en := r.enabledList(from, fromEnabled, fromLast)
 	if len(en) == 0 {
+		// soft-blocked threads (waiting for work that foreign goroutines may be doing) resume
+		// when no other thread can run; they re-check their condition themselves.
+		for _, t := range r.threads {
+			if !t.done && t.blocked != nil && t.soft {
+				t.blocked, t.soft = nil, false
+			}
+		}
+		en = r.enabledList(from, fromEnabled, fromLast)
+	}
+	if len(en) == 0 {
 		if r.finished == len(r.threads) {
 			close(r.mainDone)
 			return
@@ -494,6 +505,20 @@ func Block(obj interface{}, label string) {
 	r.pick(t, false, KWait, label)
 }
 
+// BlockSoft is Block for conditions that goroutines outside the scheduler may fulfil: the
+// thread is also resumed when no other harness thread can run (it then re-checks and may spin).
+func BlockSoft(obj interface{}, label string) {
+	t := Cur()
+	if t == nil {
+		runtime.Gosched()
+		return
+	}
+	r := active.Load()
+	t.blocked, t.soft = obj, true
+	r.pick(t, false, KWait, label)
+	t.soft = false
+}
+
 // Wake enables every thread blocked on obj.
 func Wake(obj interface{}) {
 	r := active.Load()
@@ -502,7 +527,7 @@ func Wake(obj interface{}) {
 	}
 	for _, t := range r.threads {
 		if t.blocked != nil && t.blocked == obj {
-			t.blocked = nil
+			t.blocked, t.soft = nil, false
 		}
 	}
 }
